@@ -226,6 +226,14 @@ class Lit:
                 args = [self.ev(a) for a in n.args]
                 if all(isinstance(a, (str, int)) for a in args):
                     return getattr(_re, n.func.attr)(*args)      # standard-library primitive on literal arguments
+            if isinstance(n.func, ast.Name) and n.func.id not in self.env and n.func.id not in self.PURE:
+                m_, node_ = self.repo.resolve(self.modname, n.func.id)
+                if isinstance(node_, ast.Call) and isinstance(node_.func, ast.Name) and node_.func.id == 'namedtuple':
+                    cls_ = Lit(self.repo, m_.name).ev(node_)
+                    return cls_(*[self.ev(a) for a in n.args], **{k.arg: self.ev(k.value) for k in n.keywords})
+            if isinstance(n.func, ast.Name) and n.func.id == 'namedtuple' and n.func.id not in self.env and len(n.args) == 2 and not n.keywords:
+                import collections
+                return collections.namedtuple(*[self.ev(a) for a in n.args])      # standard-library primitive on literal arguments
             if isinstance(n.func, ast.Name) and n.func.id == 'eval' and len(n.args) == 1:
                 src = self.ev(n.args[0])
                 if isinstance(src, str):
@@ -251,6 +259,18 @@ class Lit:
                 if isinstance(base, (list, dict, set, bytearray)) or (getattr(base, '_sa_fold_ok', False) and hasattr(base, n.func.attr)):
                     args = [self.ev(a) for a in n.args]
                     return getattr(base, n.func.attr)(*args)
+            if isinstance(n.func, ast.Attribute):
+                # methods of model objects supplied by the checker (not repository instances), of re.Match and of named tuples
+                try:
+                    base = self.ev(n.func.value)
+                except NotLiteral:
+                    base = None
+                if base is not None:
+                    import re as _re
+                    if (getattr(base, '_sa_model', False) and callable(getattr(base, n.func.attr, None))) or \
+                       (isinstance(base, _re.Match) and n.func.attr in ('group', 'groups', 'start', 'end', 'span', 'groupdict')) or \
+                       (isinstance(base, tuple) and hasattr(base, '_fields') and n.func.attr in ('_replace', '_asdict')):
+                        return getattr(base, n.func.attr)(*[self.ev(a) for a in n.args], **{k.arg: self.ev(k.value) for k in n.keywords})
             return self._opaque(n)
         if isinstance(n, ast.Attribute):
             try:
@@ -260,6 +280,8 @@ class Lit:
                 pass
             base = self.ev(n.value)
             if getattr(base, '_sa_fold_ok', False) and hasattr(base, n.attr):
+                return getattr(base, n.attr)
+            if isinstance(base, tuple) and n.attr in getattr(base, '_fields', ()):
                 return getattr(base, n.attr)
             raise NotLiteral('attribute ' + n.attr)
         if isinstance(n, ast.Starred):
